@@ -236,3 +236,30 @@ Definition gset_count (k : node) (c : Z) (g : graph) : graph :=               (*
 Definition aget_val (k : node) (d : list (node * N)) : N :=                   (* d[k] on the value dictionary *)
   match aget k d with Some v => v | None => 0%N end.
 Definition hint_is_none (h : hint) : bool := match h with HNone => true | _ => false end.
+
+(* ---- leaf primitives of the directive translator (harness/c18/translate_args.py) *)
+Fixpoint text_leb (a b : text) : bool :=       (* Python str <= : code point order *)
+  match a, b with
+  | [], _ => true
+  | _ :: _, [] => false
+  | x :: a', y :: b' => if N.ltb x y then true else if N.ltb y x then false else text_leb a' b'
+  end.
+Fixpoint insert_sorted (x : text) (l : list text) : list text :=
+  match l with
+  | [] => [x]
+  | y :: r => if text_leb y x then y :: insert_sorted x r else x :: l    (* stable: after equal elements *)
+  end.
+Definition sort_texts (l : list text) : list text := fold_left (fun acc x => insert_sorted x acc) l [].
+
+(* as_sorted_tuple(hint): a bare name is wrapped, an iterable is sorted *)
+Definition as_sorted_tuple (h : hint) : list node :=
+  match h with HNone => [] | HOne u => [u] | HMany l => sort_texts l end.
+
+(* `h is C` for a constraint argument and an interned module constant C (identity, modelled as equality of a BARE hint) *)
+Definition hint_is_one (u : node) (h : hint) : bool := match h with HOne x => text_eqb x u | _ => false end.
+(* is_nonstr_iter(h) *)
+Definition hint_is_many (h : hint) : bool := match h with HMany _ => true | _ => false end.
+(* `C in h` under is_nonstr_iter(h) *)
+Definition hint_many_has (u : node) (h : hint) : bool := match h with HMany l => mem_text u l | _ => false end.
+(* what the register() closure of _add_tween does to the Tweens utility *)
+Inductive tw_reg := TRExplicit (n : node) (f : N) | TRImplicit (n : node) (f : N) (under over : hint).
